@@ -54,6 +54,12 @@ def cases(tier, seed):
         follow = rng.choice([None, None, 'crop', 'reblock', 'export', 'window'])
         out.append({'id': 'g:%d' % i, 'il': il[:3], 'xl': xl[:3], 'ilk': il[3], 'xlk': xl[3], 'dt': dt, 't0': t0, 'nz': nz, 'route': route,
                     'follow': follow, 'fmt': rng.choice([1, 5]), 'rate': 2 if follow == 'reblock' else rng.choice([4, 8, 1]), 'cost': 1})
+    # 2D lines: sample axis and trace count (no line axes)
+    for j in range(n // 8):
+        out.append({'id': '2d:%d' % j, 'route': 'segy2d', 'nT': rng.choice([2, 5, 16, 17, 40]), 'nz': rng.choice([2, 3, 5, 9, 50]), 'dt': INTERVALS[j % len(INTERVALS)],
+                    't0': T0S[(j // len(INTERVALS)) % len(T0S)] if j < len(INTERVALS) * len(T0S) else rng.choice(T0S), 'fmt': rng.choice([1, 5]),
+                    'how2d': ['nonumbers', 'single-inline', 'single-crossline'][j % 3], 'rate': rng.choice([4, 8, 1]), 'follow': rng.choice([None, 'export']),
+                    'il': [1, 1, 1], 'xl': [1, 1, 1], 'ilk': '0', 'xlk': '0', 'cost': 1})
     # ZGY sources written through pyzgy: float sample axis (start and increment need not be whole ms); line numbers are kept in
     # [0, 2^24] (ZGY annotation is float32) because pyzgy's own accessors cannot address a negative line number
     for j in range(n // 8):
@@ -93,7 +99,50 @@ def compare(label, r_il, r_xl, r_z, r_n, r_struct, il, xl, zs, ntr, bad):
         bad.append({'sig': '%s:structured-flag' % label, 'detail': 'structured=%r for a regular source' % (r_struct,)})
 
 
+def run_2d(case, ctx):
+    import seismic_zfp
+    from seismic_zfp.read import SgzReader
+    from seismic_zfp.conversion import SgzConverter
+    sc = ctx['scratch']
+    nT, nZ = case['nT'], case['nz']
+    data = gen.cube((nT, nZ), 1)
+    sgy, out = sc.file('s.sgy'), sc.file('o.sgz')
+    if case['how2d'] == 'nonumbers':
+        gen.make_segy_traces(sgy, list(data), [{1: t + 1, 21: 100 + t} for t in range(nT)], dt_us=case['dt'], t0=case['t0'], fmt=case['fmt'])
+    elif case['how2d'] == 'single-inline':
+        gen.make_segy(sgy, data[None], np.array([7]), 3 + np.arange(nT), dt_us=case['dt'], t0=case['t0'], fmt=case['fmt'])
+    else:
+        gen.make_segy(sgy, data[:, None], 3 + np.arange(nT), np.array([7]), dt_us=case['dt'], t0=case['t0'], fmt=case['fmt'])
+    with segyio.open(sgy, strict=False, ignore_geometry=True) as f:
+        s_z, s_n = np.array(f.samples, dtype=np.float64), f.tracecount
+    conv.convert_segy(sgy, out, case['rate'], (1, 16, -1), detection='thorough')
+    bad = []
+
+    def cmp2d(label, z, n_):
+        if len(z) != len(s_z):
+            bad.append({'sig': '%s:sample-count-differs' % label, 'detail': '%d vs %d' % (len(z), len(s_z))})
+        elif not np.all(np.abs(np.asarray(z, dtype=np.float64) - s_z) <= 1e-6 * np.maximum(1.0, np.abs(s_z))):
+            bad.append({'sig': '%s:sample-axis-differs' % label, 'detail': '%s vs source %s' % (np.asarray(z)[:3], s_z[:3])})
+        if n_ != s_n:
+            bad.append({'sig': '%s:tracecount-differs' % label, 'detail': '%s vs %s' % (n_, s_n)})
+    with SgzReader(out) as r:
+        cmp2d('2d:reader', r.zslices, r.tracecount)
+    with seismic_zfp.open(out) as f:
+        cmp2d('2d:emulator', f.samples, f.tracecount)
+    if case['follow'] == 'export' and not bad:
+        e = sc.file('e.sgy')
+        with env.quiet():
+            with SgzConverter(out) as cv:
+                cv.convert_to_segy(e)
+        with segyio.open(e, strict=False, ignore_geometry=True) as f:
+            cmp2d('2d:after-export', f.samples, f.tracecount)
+    return {'violations': bad, 'counters': {'sources': 1}, 'strata': ['route:segy2d', '2d-dt:%d' % case['dt'], '2d-t0:%d' % case['t0'], '2d-how:' + case['how2d']],
+            'key': '2d|%s|%s|%s' % (case['dt'], case['t0'], case['how2d'])}
+
+
 def run_case(case, ctx):
+    if case['route'] == 'segy2d':
+        return run_2d(case, ctx)
     import seismic_zfp
     from seismic_zfp.read import SgzReader
     from seismic_zfp.conversion import SgzConverter
@@ -194,6 +243,7 @@ def finalize(tier, cases, results, counters, strata):
     reasons = []
     need = ['dt:%d' % d for d in INTERVALS] + ['t0:%d' % t for t in T0S] + ['ilstep:%d' % s for s in STEPS] + \
            ['ilstart:max', 'ilstart:min', 'xlstart:max', 'xlstart:min', 'ilstart:span', 'xlstart:span', 'route:segy', 'route:numpy', 'route:zgy', 'follow:crop', 'follow:reblock', 'follow:export', 'follow:window', 'numpy-axes:args', 'numpy-axes:headers', 'numpy-axes:both', 'numpy-axes:il-headers-only']
+    need += ['route:segy2d'] + ['2d-t0:%d' % t for t in T0S[:4]] + ['2d-how:' + h for h in ('nonumbers', 'single-inline', 'single-crossline')]
     need += ['zgy-dz:%s' % d for d in ZGY_DZ] + ['zgy-z0:%s' % z for z in ZGY_Z0[:3]]
     for s in need:
         if s not in strata:
